@@ -77,8 +77,9 @@ def make_arg(I, ctx, name, spec, shape, wf):
 
 class FunctionVC:
     def __init__(self, src, ccls, shape, chips='int', cuts=None, hooks=None, unwind=16, prop=None,
-                 with_state=True, configure=None, arg_makers=None):
+                 with_state=True, configure=None, arg_makers=None, setup=None):
         self.arg_makers = arg_makers or {}
+        self.setup = setup
         self.src = src
         self.ccls = ccls
         self.shape = shape
@@ -141,7 +142,7 @@ class FunctionVC:
         self.sym_args = {}
         kwargs = {}
         for pname in params:
-            if pname == 'self' or (pname not in argspecs and pname not in self.arg_makers):
+            if (pname == 'self' and self.with_state) or (pname not in argspecs and pname not in self.arg_makers):
                 continue
             if pname in self.arg_makers:
                 v = self.arg_makers[pname](I, ctx0, wf, shape)
@@ -153,13 +154,14 @@ class FunctionVC:
         bindings['integral'] = (I.chips == 'int')
         bindings['a'] = tuple(self.sym_args[nm] for nm in getattr(ccls, 'argnames', ()) if nm in self.sym_args)
         ctx0.assume(And_(*wf))
-        if getattr(ccls, 'symbolic_setup', None):
-            ccls.symbolic_setup(self, ctx0, bindings)
+        if self.setup is not None:
+            self.setup(self, ctx0, bindings)
         if hasattr(ccls, 'requires'):
             t, sub, _ = self.eval_clause('requires', ctx0, bindings)
             ctx0.set_pc(sub.pcl, sub.dead)
             ctx0.assume(t)
         self.ctx0 = ctx0
+        self.bindings = bindings
         self.heap0 = dict(ctx0.heap)
         if self.with_state:
             bindings['old'] = Snapshot(self.heap0, bindings['s'])
@@ -250,6 +252,8 @@ class FunctionVC:
         return self.obligations
 
     def add(self, ob):
+        if ob.label == 'D/shape' and getattr(self.ccls, 'label', None):
+            ob.label = self.ccls.label
         ob.meta.setdefault('function', self.ccls.target)
         ob.meta.setdefault('shape', repr(self.shape))
         ob.meta.setdefault('chips', self.I.chips)
@@ -261,6 +265,9 @@ class FunctionVC:
             out['state'] = decode(self.state_ref, self.heap0, model)
         out['args'] = {k: decode(v, self.heap0, model) for k, v in self.sym_args.items()}
         out['warnings_are_errors'] = decode(self.I.warn_flag, self.heap0, model)
+        # scalar ghost bindings introduced by the driver (e.g. entry indices)
+        out['bindings'] = {k: decode(v, self.heap0, model) for k, v in getattr(self, 'bindings', {}).items()
+                           if isinstance(v, (bool, int, z3.ExprRef)) and k not in self.sym_args}
         # values the solver chose for callees replaced by a pure contract (replay stubs them with these)
         oracle = {}
         for qual, sym in getattr(self.I, 'cut_log', []):
